@@ -132,6 +132,7 @@ class Ctx:
     def _instantiate(self, ty, body, term, snap):
         from .spec import _wrap_quant
         self.spec_mode += 1
+        self.inst_depth = getattr(self, "inst_depth", 0) + 1     # >0 while a body is evaluated as an assumption instance
         live = self.heap.st if self.heap is not None else None
         if snap is not None:
             self.heap.st = snap.copy()
@@ -143,6 +144,7 @@ class Ctx:
             if snap is not None:
                 self.heap.st = live
             self.spec_mode -= 1
+            self.inst_depth -= 1
 
     def _assume_in_state(self, r):
         self.assume_value(r)
